@@ -14,7 +14,9 @@ REQUIRED = ['C19.ensure1d_accepts_iff', 'C19.ensure1d_rejects_iff', 'C19.ensure1
             'C19.ensureEqualDims_iff', 'C19.ensureEqualDims_axis_iff', 'C19.ensure_preserves_size',
             'C19.ensureAll_iff', 'C19.ensure1d_two_columns_current', 'C19.ensure1d_one_sample_current',
             'C19.ensureVector_nd_current',
-            'C19.spectra_shape_checks_are_support_routines', 'C19.ensure_equal_dims_empty_list']
+            'C19.spectra_shape_checks_are_support_routines', 'C19.ensure_equal_dims_empty_list',
+            'C19.ensureEqualDims_pair', 'C19.ensureEqualDims_is_prefix_test', 'C19.ensureEqualDims_not_symmetric',
+            'C19.ensureEqualDims_swap_witness']
 TRUSTED = [
     'PARTIAL (instance-only): that no routine modifies its input arrays / option dictionaries, that accepted layouts give '
     'bitwise identical values, that read-only arrays are accepted and that a repeated deterministic call is identical are facts '
@@ -22,6 +24,12 @@ TRUSTED = [
     '(byte-level snapshots before/after every call, digests of squeezed outputs) on the sampled inputs',
     'PARTIAL (instance-only): which layouts each public entry point accepts or rejects is checked on the implementation per '
     'entry point; the theorems cover the four ensure_* routines every entry point delegates to (shape logic only)',
+    'ensure_equal_dims(dim=None) is a PREFIX test relative to the first array and therefore asymmetric '
+    '(C19.ensureEqualDims_is_prefix_test / _not_symmetric; witness (7,2),(7,2,3) accepted, swapped -> IndexError): "mismatched '
+    'lengths are rejected" is guaranteed only along the axes of the first array. The ensure_lists stream compares model and code on '
+    'every pair in BOTH orders; the instance check speaks only about equal-rank inputs',
+    'which entry point applies which normaliser (table in the header of lean/Proofs/C19.lean) is read from the code and validated '
+    'by the entry_points stream; it is not a model',
     'numpy shape semantics of x[:, 0], x[:, newaxis], reshape are what the model assumes for the normalised shapes; the '
     'ensure_shapes stream compares them (and the element order of the data) with the real routines on every enumerated shape',
 ]
@@ -186,7 +194,9 @@ class EnsureLists(Stream):
 
     def corpus(self):
         return [{'shapes': s} for s in ([[7], [7, 2]], [[7, 2], [7]], [[7, 1], [6, 1]], [[7, 2, 3], [7, 2]], [[7], [7], [8]],
-                                        [[7, 3], [7, 3, 2], [7, 3, 2]], [[], [3]], [[3], []])]
+                                        [[7, 3], [7, 3, 2], [7, 3, 2]], [[], [3]], [[3], []],
+                                        # C19.ensureEqualDims_swap_witness: the verdict depends on the order of the arrays
+                                        [[7, 2], [7, 2, 3]], [[7, 2], [6, 2, 3]], [[6, 2, 3], [7, 2]])]
         # (an EMPTY list of arrays is outside the property - it speaks about the arrays that are passed - so it is not part
         #  of the correspondence or the instance check: a harmless rewrite may treat it differently. The model's answer on it,
         #  C19.ensure_equal_dims_empty_list, was checked against the code by hand when the two shape models were reconciled.)
@@ -215,12 +225,14 @@ class EnsureLists(Stream):
 
     def impl(self, case):
         shapes = case['shapes']
-        return {'eq': [_call_eq(shapes, d) for d in DIMS], 'ens': {fn: _call_ensure(fn, shapes) for fn in FN}}
+        return {'eq': [_call_eq(shapes, d) for d in DIMS], 'ens': {fn: _call_ensure(fn, shapes) for fn in FN},
+                'eq_swapped': _call_eq(shapes[::-1], None)}
 
     def ops(self, case, out):
         shapes = case['shapes']
         ops = [proto.op('ENSEQ', {'dim': 'none' if d is None else str(d)}, [list(s) for s in shapes]) for d in DIMS]
-        return ops + [_ens_op(fn, shapes) for fn in FN]
+        return ops + [_ens_op(fn, shapes) for fn in FN] + \
+            [proto.op('ENSEQ', {'dim': 'none'}, [list(s) for s in shapes[::-1]])]
 
     def compare(self, case, out, results):
         if isinstance(out, ImplError):
@@ -233,6 +245,10 @@ class EnsureLists(Stream):
             d = _cmp_ens('%s%s' % (FN[fn], case['shapes']), out['ens'][fn], r)
             if d:
                 return d
+        r = results[len(DIMS) + len(FN)]
+        m = 'ok' if r.ok else (r.words[0] if r.status == 'err' and r.words else r.raw)
+        if m != out['eq_swapped']:
+            return 'ensure_equal_dims(%s reversed, dim=None): impl %s, model %s' % (case['shapes'], out['eq_swapped'], m)
         return None
 
     def holds(self, case, out):
@@ -260,6 +276,8 @@ class EnsureLists(Stream):
         if not isinstance(out, ImplError):
             for d, o in zip(DIMS, out['eq']):
                 t.append('eq dim=%s:%s' % (d, o))
+            if len(case['shapes']) == 2 and out['eq'][0] != out['eq_swapped']:
+                t.append('eq dim=None:order-of-arrays-changes-verdict:%s/%s' % tuple(sorted([out['eq'][0], out['eq_swapped']])))
         return t
 
     def nontrivial(self, case, out):
